@@ -51,6 +51,8 @@ A_REP = [
     ((-2, 12), (2, 6)),  # nested
     ((0, 3), (7, 12)),  # far apart
 ]
+A_ALL = list(range(9))
+A_CORE = [0, 1, 2, 4, 7]  # none, full, starts-inside, abutting, nested
 A_NAMES = ["none", "full", "starts-inside", "ends-inside", "abutting", "short-overlap", "long-overlap", "nested", "far-apart"]
 
 # target tables on chr1 in units
@@ -124,12 +126,12 @@ def describe(tier):
             + " x short x split; shorten_labels on every sequence of <=5 labels; 4 annotation files x tables x layouts x short x split",
             "antitarget_targets": ("every non-empty multiset of <=3 intervals over 0..10" if t else "every non-empty multiset of <=2 intervals over 0..8 and of 3 over 0..6")
             + " x 9 representative access tables (incl. none) x sizes (1000, default), (600, 300)"
-            + ("" if t else " (3-interval tables: the first size pair only)")
+            + ("" if t else " (3-interval tables: the first size pair and 5 access tables only)")
             + "; multi-contig layout for "
             + ("<=2 over 0..8 and 3 over 0..6" if t else "<=2 over 0..6, first size pair"),
             "antitarget_access": ("every set of <=2 intervals over -2..12" if t else "every interval over -2..12 and every pair of intervals on the even grid -2..12")
             + " x 17 representative target tables x the same 2 size pairs" + ("" if t else " (pairs of access intervals: the first only)"),
-            "antitarget_sizes": ("<=2 intervals over 0..8" if t else "<=2 intervals over 0..5") + " x 9 access tables x avg {600,1000,3000} x min {default,100,avg/2}",
+            "antitarget_sizes": ("<=2 intervals over 0..8" if t else "<=2 intervals over 0..5") + (" x 9" if t else " x 5") + " access tables x avg {600,1000,3000} x min {default,100,avg/2}",
             "antitarget_contigs": "chr1 targets {none, single, nested} x {chr2, chrUn_x} baits x access {none, chr1 {absent, full, two regions} x subsets of "
             "{chr2, chrUn_x, chr3, chr6_x_alt}} sharing a contig with the targets x 2 size pairs",
             "antitarget_fine": ("distance 900..2700 step 1" if t else "distance 940..1160, 1880..1920, 2480..2520 step 1")
@@ -204,9 +206,10 @@ def cases(tier):
         ttabs = [x for x in multisets(ne_intervals(0, 8), 2) if x] + [x for x in multisets(ne_intervals(0, 6), 3) if len(x) == 3]
         multi = [x for x in multisets(ne_intervals(0, 6), 2) if x]
     for x in ttabs:
-        yield {"check": "antitarget-targets", "t": x, "layout": "single", "nsizes": 2 if (t or len(x) <= 2) else 1}
+        small = t or len(x) <= 2
+        yield {"check": "antitarget-targets", "t": x, "layout": "single", "nsizes": 2 if small else 1, "access": A_ALL if small else A_CORE}
     for x in multi:
-        yield {"check": "antitarget-targets", "t": x, "layout": "multi", "nsizes": 2 if t else 1}
+        yield {"check": "antitarget-targets", "t": x, "layout": "multi", "nsizes": 2 if t else 1, "access": A_ALL}
     if t:
         atabs = sets_upto2(ne_intervals(-2, 12))
     else:
@@ -216,7 +219,7 @@ def cases(tier):
         yield {"check": "antitarget-access", "a": a, "nsizes": 2 if (t or len(a) == 1) else 1}
     for x in multisets(ne_intervals(0, 8 if t else 5), 2):
         if x:
-            yield {"check": "antitarget-sizes", "t": x}
+            yield {"check": "antitarget-sizes", "t": x, "access": A_ALL if t else A_CORE}
     for t1 in ((), ((3, 5),), ((1, 7), (3, 4))):
         for tl in TARGET_LAYOUTS:
             if t1 or TARGET_LAYOUTS[tl]:
@@ -523,7 +526,7 @@ def run_antitarget_targets(case, ctx):
     trows = chr1_rows(case["t"]) + (multi_extras(True)[0] if multi else [])
     tga, tfull = bait_table(trows)
     trows = [r[:3] for r in tfull]
-    for name, a in zip(A_NAMES, A_REP):
+    for name, a in ((A_NAMES[i], A_REP[i]) for i in case["access"]):
         arows = None if a is None else sort_rows(chr1_rows(a) + (multi_extras(False)[1] if multi else []))
         for avg, mn in SIZES_MAIN[: case["nsizes"]]:
             r = check_antitarget(ctx, tga, trows, arows, avg, mn, {"access_name": name})
@@ -545,7 +548,7 @@ def run_antitarget_access(case, ctx):
 def run_antitarget_sizes(case, ctx):
     tga, tfull = bait_table(chr1_rows(case["t"]))
     trows = [r[:3] for r in tfull]
-    for name, a in zip(A_NAMES, A_REP):
+    for name, a in ((A_NAMES[i], A_REP[i]) for i in case["access"]):
         arows = None if a is None else sort_rows(chr1_rows(a))
         for avg, mn in SIZES:
             r = check_antitarget(ctx, tga, trows, arows, avg, mn, {"access_name": name})
